@@ -53,6 +53,9 @@ pub struct TcpScript {
     /// the target closes first and the application, having seen the end, keeps its socket open and idle: everything
     /// but that one socket has to be released by then
     pub hold: bool,
+    /// the target reads slowly (16 KiB per millisecond): when the flow is dropped a good part of the upload is still in
+    /// the server's socket towards it
+    pub slow_target: bool,
 }
 
 /// a session id no other call of this process has used
@@ -671,7 +674,7 @@ const PATIENCE: Duration = Duration::from_secs(8);
 /// where the server dialled, what arrived on each side, who saw end-of-stream, and whether the end
 /// was seen promptly after the side that ends the flow closed
 pub async fn tcp_flow(client_port: u16, sc: TcpScript, links: Arc<std::sync::Mutex<Vec<tokio::task::AbortHandle>>>) -> String {
-    let TcpScript { kind, host, up, down, target_closes_first, target, cut_after, reset, early, hold } = sc;
+    let TcpScript { kind, host, up, down, target_closes_first, target, cut_after, reset, early, hold, slow_target } = sc;
     let (reset_app, reset_target, reset_answer) = (reset.as_deref() == Some("app"), reset.as_deref() == Some("target"), reset.as_deref() == Some("target-answer"));
     let Ok(listener) = TcpListener::bind("127.0.0.1:0").await else { return "no-loopback".to_owned() };
     let tport = listener.local_addr().unwrap().port();
@@ -711,7 +714,10 @@ pub async fn tcp_flow(client_port: u16, sc: TcpScript, links: Arc<std::sync::Mut
             if seen2.lock().await.got.len() >= wait_for {
                 break;
             }
-            let room = if reset_answer { (wait_for - seen2.lock().await.got.len()).min(buf.len()) } else { buf.len() };
+            let room = if reset_answer { (wait_for - seen2.lock().await.got.len()).min(buf.len()) } else if slow_target { 16384 } else { buf.len() };
+            if slow_target {
+                tokio::time::sleep(Duration::from_millis(1)).await;
+            }
             match tokio::time::timeout(Duration::from_millis(6000), t.read(&mut buf[..room])).await {
                 Ok(Ok(0)) => {
                     let mut s = seen2.lock().await;
